@@ -167,6 +167,9 @@ def run_api(rep, tier, seed, progs):
         viol = []
         if res.result.startswith("result crashed") or res.result.startswith("result hung"):
             viol.append("the runtime crashed or hung: " + res.result)
+        g = [l for l in res.trace if l.startswith("guard-violation")]
+        if g and not getattr(rep, "pending_guard", None):
+            rep.pending_guard = dict(broken="model assumption of C06: qrwlock::try_wake ran without the lock's spinlock held (%s)" % g[0], program=p)
         if any(l.startswith("overlap") for l in res.trace):
             viol.append("a writer was inside the critical section together with another holder")
         rej = res.reject[1] if res.reject else None
